@@ -156,10 +156,12 @@ def check(run: Run) -> None:
         fa = R.fn(run, NODE, "find_canonical", cls="NodeRuntimeRegistry")
         cn = R.aliases_of(fa)
         ctext = " ".join(cn(s.cond) for s in fa.body.walk() if isinstance(s, C.If))
-        for need in ("canonical_types.find(runtime_type_id)", "plan()==&plan", "implementation_name()==implementation_label", "schema_equivalent("):
+        alltxt = ctext + " " + " ".join(cn(c) for c in R.calls(fa))
+        for need in (("canonical_types.find(runtime_type_id)",), ("plan()==&plan", "&plan==plan()"), ("implementation_name()==implementation_label", "implementation_label==implementation_name()"),
+                     ("schema_equivalent(",)):
             run.count(1)
-            if need not in ctext and need not in " ".join(cn(c) for c in R.calls(fa)):
-                run.finding("C06.a2", f"find_canonical:{need}", f"find_canonical no longer requires {need}", loc=NODE)
+            if not any(re.search(re.escape(n).replace(re.escape("plan()"), r"\S*plan\(\)").replace(re.escape("implementation_name()"), r"\S*implementation_name\(\)"), alltxt) for n in need):
+                run.finding("C06.a2", f"find_canonical:{need[0]}", f"find_canonical no longer requires {need[0]}", loc=NODE)
         ge = _struct(run, GRAPHH, "GraphEdge")
         fa = R.fn(run, GRAPH, "edges_equivalent", cls="GraphRuntimeRegistry")
         txt = R.Canon()(R.find(fa, lambda n: isinstance(n, C.Return))[-1].e)
@@ -170,14 +172,23 @@ def check(run: Run) -> None:
         fa = R.fn(run, GRAPH, "entry_equivalent", cls="GraphRuntimeRegistry")
         cn = R.aliases_of(fa)
         ctext = " ".join(cn(s.cond) for s in fa.body.walk() if isinstance(s, C.If))
-        for need, what in (("entry.schema.name()!=builder.label()", "label"), ("entry.schema.nodes.size()!=builder.nodes().size()", "node count"),
-                           ("entry.schema.edges.size()!=builder.edges().size()", "edge count"),
-                           ("entry.schema.push_source_nodes_end!=compute_push_source_nodes_end(builder)", "push-source prefix"),
-                           (".type!=builder.nodes()[index].type()", "node types"), ("!edges_equivalent(entry.schema.edges[index],builder.edges()[index])", "edges"),
-                           ("graph_has_compound_scalar_storage(entry.root_context)!=", "pooled storage flag")):
+        conds = [cn(s0.cond) for s0 in fa.body.walk() if isinstance(s0, C.If)]
+
+        def has_cmp(text, op, a, b):
+            if a.startswith("."):  # a field of some element, e.g. `<x>.type != builder...`
+                return any(op in c and b in c and (c.endswith(a) or (a + op) in c or (a + ")") in c) for c in conds)
+            return f"{a}{op}{b}" in text or f"{b}{op}{a}" in text
+        for (a, b), what in ((("entry.schema.name()", "builder.label()"), "label"), (("entry.schema.nodes.size()", "builder.nodes().size()"), "node count"),
+                             (("entry.schema.edges.size()", "builder.edges().size()"), "edge count"),
+                             (("entry.schema.push_source_nodes_end", "compute_push_source_nodes_end(builder)"), "push-source prefix"),
+                             ((".type", "builder.nodes()[index].type()"), "node types"),
+                             (("graph_has_compound_scalar_storage(entry.root_context)", ""), "pooled storage flag")):
             run.count(1)
-            if need not in ctext:
+            if not has_cmp(ctext, "!=", a, b):
                 run.finding("C06.a2", f"entry_equivalent:{what}", f"GraphRuntimeRegistry::entry_equivalent no longer compares the {what}", loc=GRAPH)
+        run.count(1)
+        if "!edges_equivalent(entry.schema.edges[index],builder.edges()[index])" not in ctext:
+            run.finding("C06.a2", "entry_equivalent:edges", "GraphRuntimeRegistry::entry_equivalent no longer compares the edges", loc=GRAPH)
         for l in [x for x in R.loops(fa) if isinstance(x, C.For)]:
             sh = R.loop_shape(l, cn)
             if sh.get("init") != "0" or sh["breaks"] or sh["continues"] or sh.get("step") != "++":
